@@ -11,6 +11,11 @@ Hardening round: besides the small random containers this module produces
   * structured long index lists (runs, reversed runs, strides, constants, sorted with duplicates, permutations)
     with a few interior entries disturbed, so that a fast path recognised by a cheap test on the end points is
     exercised with an input that only looks like its precondition.
+
+Third round: the spelling family (`real_apply`: select / index_select / narrow / __getitem__, axis as 0 / 1 or -3 / -2,
+positional or keyword arguments, direct narrow(dim, start, length) calls), the caller's ONE mutable list object refilled
+and re-used as index (`buf` / `prebuf`), and the vectorised `tall` family (2^17+1 .. 2^20+1001 rows or columns, symbolic
+long indices, direct oracle only) at the end of this module.
 """
 from __future__ import annotations
 
@@ -363,6 +368,8 @@ def to_py_index(ix, shared=None):
     """the Python object handed to the real code.  `shared` (a dict owned by one program run) makes every index
     that carries the same `share` id the SAME tensor object."""
     t = ix['t']
+    if t == 'sym':
+        return sym_object(ix)
     if t == 'int':
         return ix['i']
     if t == 'slice':
@@ -370,6 +377,11 @@ def to_py_index(ix, shared=None):
     if t == 'list' and ix.get('as') == 'range':
         return range(*ix['range'])
     if t == 'list' and ix.get('as') != 'tensor':
+        if ix.get('buf') is not None and shared is not None:
+            # the caller's ONE mutable list object, refilled with the contents of this step
+            buf = shared.setdefault(('buf', ix['buf']), [])
+            buf[:] = ix['is']
+            return buf
         return list(ix['is'])
     k = ix.get('share')
     if shared is None or k is None:
@@ -381,7 +393,9 @@ def to_py_index(ix, shared=None):
 
 def index_intact(obj, ix):
     """an index tensor handed to a selection still holds what the caller put into it"""
-    if not isinstance(obj, torch.Tensor):
+    if isinstance(obj, list):
+        return obj == ix['is']
+    if not isinstance(obj, torch.Tensor) or ix['t'] == 'sym':
         return True
     return obj.tolist() == (ix['bs'] if ix['t'] == 'mask' else ix['is'])
 
@@ -494,6 +508,28 @@ def _valid_for(ix, n):
     return all(-n <= i < n for i in ix['is'])
 
 
+def spell(rng, op):
+    """the spelling family (see real_apply): which public method issues the selection, how the axis and the
+    arguments are written"""
+    op['via'] = 'method' if op['ix'].get('nar') else rng.choice(['select', 'getitem', 'method'])
+    if rng.random() < .4:
+        op['neg'] = True
+    if rng.random() < .3:
+        op['kw'] = True
+    if op['via'] == 'getitem' and op['dim'] == 0 and rng.random() < .3:
+        op['full'] = True
+    return op
+
+
+def gen_narrow(rng, n, other):
+    """a direct narrow(dim, start, length) call inside its contract (0 <= start, start + length <= size): lengths
+    around the OTHER axis' size, around this axis' size, 0, 1; starts 0 / flush with the end / anywhere"""
+    lens = [x for x in (0, 1, other - 1, other, other + 1, n - 1, n, n // 2, rng.randint(0, max(n, 0))) if 0 <= x <= n]
+    length = rng.choice(lens)
+    start = rng.choice([0, 0, n - length, rng.randint(0, n - length)])
+    return {'t': 'slice', 'a': start, 'b': start + length, 's': None, 'nar': True}
+
+
 def gen_ops(rng, R, C, nmax=6, allow_bad=True, level=0, big=False, heavy=False):
     """a selection program; tracks the (rows, cols) it expects so indices stay mostly in range.
 
@@ -509,6 +545,8 @@ def gen_ops(rng, R, C, nmax=6, allow_bad=True, level=0, big=False, heavy=False):
             ix = gen_big_index(rng, n, level, allow_bad, max_len=n + 2 if heavy else None)
         else:
             ix = gen_index(rng, n, allow_bad)
+        if ix['t'] == 'list' and ix.get('as') == 'list' and rng.random() < .35:
+            ix['buf'] = 0          # the program's ONE mutable list object, refilled before every use
         if not (ix['t'] == 'mask' or ix.get('as') == 'tensor'):
             return ix
         if pool and rng.random() < .4:
@@ -534,6 +572,8 @@ def gen_ops(rng, R, C, nmax=6, allow_bad=True, level=0, big=False, heavy=False):
             ix0, ix1 = draw(r, c), draw(c, r)
             if ix0['t'] == 'int' and ix1['t'] == 'int':
                 ix1 = {'t': 'slice', 'a': None, 'b': None, 's': None}
+            if 'buf' in ix0 and 'buf' in ix1:
+                ix1.pop('buf')         # m[buf, buf] would hand over ONE object for two different contents
             ops.append({'op': 'sel2', 'ix0': ix0, 'ix1': ix1})
             if rng.random() < .1:
                 ops[-1]['twice'] = True
@@ -543,10 +583,13 @@ def gen_ops(rng, R, C, nmax=6, allow_bad=True, level=0, big=False, heavy=False):
             r, c = r2, c2
             continue
         dim = rng.choice([0, 0, 1])
-        ix = draw(r if dim == 0 else c, c if dim == 0 else r)
-        ops.append({'op': 'sel', 'ix': ix, 'dim': dim, 'via': rng.choice(['select', 'getitem', 'api'])})
+        n_, other_ = (r, c) if dim == 0 else (c, r)
+        ix = gen_narrow(rng, n_, other_) if rng.random() < .12 else draw(n_, other_)
+        ops.append(spell(rng, {'op': 'sel', 'ix': ix, 'dim': dim}))
         if rng.random() < .1:
             ops[-1]['twice'] = True
+        if 'buf' in ix and n_ >= 1 and 1 <= len(ix['is']) <= 64 and _valid_for(ix, n_) and rng.random() < .6:
+            ops[-1]['prebuf'] = [rng.randint(-n_, n_ - 1) for _ in ix['is']]
         k = py_len(ix, r if dim == 0 else c)
         if k is None:
             break
@@ -598,7 +641,7 @@ def gen_alias_ops(rng, R, C):
     ix['is'][rng.randrange(len(ix['is']))] = rng.randint(-m, -1)
     _decorate(ix, rng)
     form = rng.choice(['both', 'chain', 'chain', 'same-axis'])
-    via = lambda: rng.choice(['select', 'getitem', 'api'])
+    via = lambda: rng.choice(['select', 'getitem', 'method'])
     if form == 'both':
         ops = [{'op': 'sel2', 'ix0': dict(ix), 'ix1': dict(ix)}]
     elif form == 'chain':
@@ -611,6 +654,12 @@ def gen_alias_ops(rng, R, C):
         ops = [{'op': 'sel', 'ix': dict(ix), 'dim': d, 'via': via()}, {'op': 'sel', 'ix': dict(ix), 'dim': d, 'via': via()}]
     if rng.random() < .3:
         ops.append({'op': 'sel', 'ix': gen_index(rng, len(ix['is']), False), 'dim': rng.choice([0, 1]), 'via': via()})
+    for op in ops:
+        if op['op'] == 'sel':
+            if rng.random() < .4:
+                op['neg'] = True
+            if rng.random() < .3:
+                op['kw'] = True
     return ops
 
 
@@ -659,7 +708,12 @@ def ref_apply(ref, ncols, op):
 
 
 def real_apply(cur, op, shared=None, used=None):
-    """apply one op; `used` collects (index object, index spec) of every index handed to the real code"""
+    """apply one op; `used` collects (index object, index spec) of every index handed to the real code.
+
+    Spelling family: every selection is issued through one of the public spellings of the same operation -
+    `__getitem__` (m[i] / m[i, :] / m[:, j]), `select`, `index_select` (index tensors), `narrow` (plain slices, and
+    direct (start, length) calls) - with the axis written as 0 / 1 or as its negative alias -3 / -2 (`neg`) and the
+    arguments passed by position or by keyword (`kw`)."""
     def mk(ix):
         o = to_py_index(ix, shared)
         if used is not None:
@@ -668,21 +722,47 @@ def real_apply(cur, op, shared=None, used=None):
     if op['op'] == 'sel':
         ix = mk(op['ix'])
         via = op.get('via')
+        dim = op['dim']
+        d = dim - 3 if op.get('neg') else dim
+        kw = op.get('kw')
         if via == 'getitem':
-            return cur[ix] if op['dim'] == 0 else cur[:, ix]
+            if dim == 0:
+                return cur[ix, :] if op.get('full') else cur[ix]
+            return cur[:, ix]
         if via == 'api':
-            # the other public spellings of the same selection: index_select for index tensors, narrow for a plain
-            # slice (bounds clamped like Python does), the axis written negatively otherwise
+            # (older cases) index_select for index tensors, narrow for a plain slice, the axis written negatively otherwise
             if isinstance(ix, torch.Tensor):
-                return cur.index_select(ix, op['dim'] - 3 if op['ix'].get('view') else op['dim'])
+                return cur.index_select(ix, dim - 3 if op['ix'].get('view') else dim)
             if isinstance(ix, slice) and ix.step in (None, 1):
-                a, b, _ = ix.indices(cur.size(op['dim']))
-                return cur.narrow(op['dim'], a, b - a)
-            return cur.select(ix, op['dim'] - 3)
-        return cur.select(ix, op['dim'])
+                a, b, _ = ix.indices(cur.size(dim))
+                return cur.narrow(dim, a, b - a)
+            return cur.select(ix, dim - 3)
+        if via == 'method':
+            # the dedicated public method of the index kind
+            if isinstance(ix, torch.Tensor):
+                return cur.index_select(index=ix, dim=d) if kw else cur.index_select(ix, d)
+            if isinstance(ix, slice) and ix.step in (None, 1):
+                if op['ix'].get('nar') and ix.stop <= cur.size(d):
+                    a, b = ix.start, ix.stop            # a direct narrow(dim, start, length) call inside its contract
+                else:
+                    # bounds clamped like Python does (also a direct call that a caller re-applies to a container of
+                    # another shape than it was drawn for - C06 filters the steps of a program)
+                    a, b, _ = ix.indices(cur.size(d))
+                return cur.narrow(dim=d, start=a, length=b - a) if kw else cur.narrow(d, a, b - a)
+        return cur.select(index=ix, dim=d) if kw else cur.select(ix, d)
     if op['op'] == 'sel2':
         return cur[mk(op['ix0']), mk(op['ix1'])]
     raise AssertionError
+
+
+def sizes_consistent(m):
+    """every public way of asking a container for its row / column count gives the same answer"""
+    try:
+        r, c = int(m.num_rows), int(m.num_cols)
+        return (m.size(0) == m.size(-3) == len(m) == m.shape[0] == r and m.size(1) == m.size(-2) == m.shape[1] == c
+                and (m.values.shape[0] == r if isinstance(m, MET) else True))
+    except Exception:
+        return False
 
 
 def run_real_program(spec, payload, ops, root_out=None):
@@ -717,6 +797,23 @@ def run_real_program(spec, payload, ops, root_out=None):
                 findings.append((k, 'single-cell access differs from the nested list', exp, got))
             outs.append(out)
             continue
+        if op.get('prebuf') is not None:
+            # history of one mutable index object: the caller's list was used for another selection (same length,
+            # other entries) on this container just before; it is refilled for this step by to_py_index
+            pre = dict(op, ix=dict(op['ix'], **{'is': list(op['prebuf'])}))
+            pre.pop('prebuf')
+            try:
+                efirst, ec = ref_apply(ref, ncols, pre)
+            except (IndexError, ValueError):
+                efirst = None          # (a program re-applied to a container of another shape: nothing to learn)
+            if efirst is not None:
+                try:
+                    first = real_repr(real_apply(cur, pre, shared), payload)
+                    if not well_formed(first, kind) or first['R'] != len(efirst) or first['C'] != ec \
+                            or cells_of_repr(first, kind) != efirst:
+                        findings.append((k, 'selected cells differ from the nested-list selection', efirst, None))
+                except Exception as e:
+                    findings.append((k, f'selection with a legal index list raises {type(e).__name__}', None, None))
         used = []
         try:
             new = real_apply(cur, op, shared, used)
@@ -734,7 +831,7 @@ def run_real_program(spec, payload, ops, root_out=None):
                              'raises' if eref is None else eref, 'raises' if new is None else out))
         elif new is not None:
             rep = out['ok']
-            if not well_formed(rep, kind):
+            if not well_formed(rep, kind) or not sizes_consistent(new):
                 findings.append((k, 'result is not a well-formed container', None, rep))
             elif rep['R'] != len(eref) or rep['C'] != encols or cells_of_repr(rep, kind) != eref:
                 findings.append((k, 'selected cells differ from the nested-list selection', eref,
@@ -769,3 +866,274 @@ def run_real_program(spec, payload, ops, root_out=None):
             if eref is not None:
                 ref, ncols = eref, encols
     return outs, cur, findings
+
+
+# ------------------------------------------------------------------ tall containers (beyond the shared size ladder)
+# Containers whose number of rows (or columns) lies just above a power of two beyond stress.LADDER_BIG (2^17 .. 2^20:
+# block sizes of chunked gathers).  They are far too large for nested Python lists and for the model driver, so the
+# whole family is vectorised: the container is built with numpy such that every stored value encodes its own
+# (cell id, position in the cell); a selection is judged against Python list semantics evaluated with numpy on the
+# ORIGINAL row / column ids (direct oracle only).  Long indices travel symbolically ({'t': 'sym', ...}).
+TALL_LADDER = [2 ** 17, 2 ** 18, 2 ** 19, 2 ** 20]
+
+
+def tall_size(rng, level):
+    xs = TALL_LADDER[:1] if level <= 0 else TALL_LADDER[:2] if level == 1 else TALL_LADDER
+    return rng.choice(xs) + rng.choice([1, 1, 2, 5, 64, 1001])
+
+
+def sym_array(ix):
+    """the entries of a symbolic index (numpy int64 array, or bool array for a mask)"""
+    g = np.random.default_rng(ix['seed'])
+    n, k, pat = ix['n'], ix['len'], ix['pat']
+    if pat == 'mask':
+        bs = g.random(n) < ix['p']
+        bs[[0, n - 1, n // 2]] = [ix['p'] > .5, True, True]
+        return bs
+    if pat == 'run':
+        a = np.arange(ix['a'], ix['a'] + k)
+    elif pat == 'reversed':
+        a = np.arange(ix['a'] + k - 1, ix['a'] - 1, -1)
+    elif pat == 'stride':
+        a = np.arange(ix['a'], n, ix['st'])
+    elif pat == 'perm':
+        a = g.permutation(n)[:k]
+    elif pat == 'sorted':
+        a = np.sort(g.integers(0, n, k))
+    else:
+        a = g.integers(0, n, k)
+    a = a.astype(np.int64)
+    if ix.get('negq'):
+        neg = g.random(len(a)) < ix['negq']
+        a = np.where(neg, a - n, a)
+    return a
+
+
+def sym_object(ix):
+    a = sym_array(ix)
+    how = ix.get('as', 'tensor')
+    if ix['pat'] == 'mask':
+        return torch.from_numpy(a)
+    if how == 'range':
+        k = len(a)
+        return {'run': range(ix['a'], ix['a'] + k), 'reversed': range(ix['a'] + k - 1, ix['a'] - 1, -1),
+                'stride': range(ix['a'], ix['n'], ix.get('st', 1))}[ix['pat']]
+    if how == 'list':
+        return a.tolist()
+    t = torch.from_numpy(a.copy())
+    if ix.get('dt') == 'int32':
+        t = t.to(torch.int32)
+    return t
+
+
+def gen_sym(rng, n):
+    """a symbolic index expression for a huge axis"""
+    pat = rng.choice(['mask', 'run', 'reversed', 'stride', 'perm', 'sorted', 'random'])
+    k = rng.choice([n, n - 1, n // 2 + 1, 3, 2 ** 17 + 1 if n > 2 ** 17 + 1 else n])
+    ix = {'t': 'sym', 'pat': pat, 'n': n, 'len': k, 'seed': rng.randrange(10 ** 6)}
+    if pat == 'mask':
+        ix['p'] = rng.choice([.05, .5, .95])
+        return ix
+    if pat in ('run', 'reversed'):
+        ix['a'] = rng.randint(0, n - k)
+    if pat == 'stride':
+        ix['st'], ix['a'] = rng.choice([2, 3, 7]), rng.randint(0, 2)
+    ix['as'] = rng.choice(['tensor', 'tensor', 'list', 'range']) if pat in ('run', 'reversed', 'stride') \
+        else rng.choice(['tensor', 'tensor', 'list'])
+    if ix['as'] != 'range' and rng.random() < .4:
+        ix['negq'] = rng.choice([.02, .3, 1.0])
+    if ix['as'] == 'tensor' and rng.random() < .3:
+        ix['dt'] = 'int32'
+    return ix
+
+
+def gen_tall_case(rng, level):
+    kind = rng.choice(['mnt', 'mnt', 'met'])
+    n = tall_size(rng, level)
+    wide = rng.random() < .2
+    R, C = (rng.choice([1, 2, 3]), n) if wide else (n, rng.choice([1, 2, 3, 4]))
+    t = {'kind': kind, 'R': R, 'C': C, 'seed': rng.randrange(10 ** 6), 'payload': rng.choice(['int', 'float64']),
+         'pe': rng.choice([.1, .3, .6])}
+    ops, r, c = [], R, C
+    for step in range(rng.randint(1, 3)):
+        # the first step is a gather along the SMALL axis half of the time (every row / column of the huge axis is
+        # moved by one vectorised operation), afterwards anything
+        dim = rng.choice([0, 1]) if step else rng.choice([1, 1, 1, 0] if not wide else [0, 0, 0, 1])
+        n_, other = (r, c) if dim == 0 else (c, r)
+        if n_ > 4096:
+            u = rng.random()
+            if u < .6:
+                ix = gen_sym(rng, n_)
+            elif u < .75:
+                ix = gen_narrow(rng, n_, other)
+            else:
+                ix = {'t': 'slice', 'a': rng.choice([None, 0, 1, n_ // 2, -n_ + 1, 2 ** 17]),
+                      'b': rng.choice([None, n_, n_ - 1, n_ + 5, -1]), 's': rng.choice([None, 1, 2, 3])}
+        elif step == 0 and n_ >= 1 and rng.random() < .7:
+            # a true gather along the small axis: every row (column) of the huge axis is moved by one operation
+            kk = rng.choice(['list', 'tensor', 'mask', 'range', 'step'])
+            if kk in ('list', 'tensor'):
+                ix = _decorate({'t': 'list', 'as': kk, 'is': [rng.randint(-n_, n_ - 1) for _ in range(rng.randint(1, n_ + 2))]}, rng)
+            elif kk == 'mask':
+                bs = [rng.random() < .6 for _ in range(n_)]
+                bs[rng.randrange(n_)] = True
+                ix = {'t': 'mask', 'bs': bs}
+            elif kk == 'range':
+                a, st = rng.randint(0, n_ - 1), rng.choice([1, 2])
+                rg = [a, n_, st] if rng.random() < .6 else [n_ - 1, a - 1, -1]
+                ix = {'t': 'list', 'is': list(range(*rg)), 'as': 'range', 'range': rg}
+            else:
+                ix = {'t': 'slice', 'a': rng.choice([None, 0, 1]), 'b': None, 's': rng.choice([2, 3])}
+        else:
+            ix = gen_narrow(rng, n_, other) if rng.random() < .1 else gen_index(rng, n_, allow_bad=False)
+            if ix['t'] == 'int' and n_ == 0:
+                ix = {'t': 'slice', 'a': None, 'b': None, 's': None}
+        for _ in range(6):
+            if sym_len(ix, n_) or rng.random() < .1:
+                break
+            ix = gen_index(rng, n_, allow_bad=False) if n_ <= 4096 else gen_sym(rng, n_)
+        ops.append(spell(rng, {'op': 'sel', 'ix': ix, 'dim': dim}))
+        k = sym_len(ix, n_)
+        if dim == 0:
+            r = k
+        else:
+            c = k
+        if r * c == 0:
+            break
+    return {'fam': 'tall', 'tall': t, 'ops': ops, 'oracle_only': True}
+
+
+def np_positions(ix, n):
+    """Python list semantics of an index expression on range(n), as a numpy array of positions; raises like Python"""
+    t = ix['t']
+    if t == 'sym':
+        a = sym_array(ix)
+        if a.dtype == bool:
+            if len(a) != n:
+                raise IndexError
+            return np.nonzero(a)[0]
+    elif t == 'int':
+        a = np.asarray([ix['i']], dtype=np.int64)
+    elif t == 'slice':
+        if ix['s'] is not None and ix['s'] <= 0:
+            raise ValueError
+        return np.arange(n)[slice(ix['a'], ix['b'], ix['s'])]
+    elif t == 'mask':
+        if len(ix['bs']) != n:
+            raise IndexError
+        return np.nonzero(np.asarray(ix['bs'], dtype=bool))[0]
+    else:
+        a = np.asarray(ix['is'], dtype=np.int64)
+    if len(a) and (a.min() < -n or a.max() >= n):
+        raise IndexError
+    return np.where(a < 0, a + n, a)
+
+
+def sym_len(ix, n):
+    return len(np_positions(ix, n))
+
+
+def tall_build(t):
+    """(real container, numpy description) of a tall case.  value of entry k of cell (i, j) = (i*C + j)*8 + k"""
+    g = np.random.default_rng(t['seed'])
+    R, C = t['R'], t['C']
+    dt = dtype_of(t['payload'])
+    if t['kind'] == 'mnt':
+        lens = g.integers(1, 4, size=(R, C))
+        lens[g.random((R, C)) < t['pe']] = 0
+        for a in (0, R - 3, 2 ** 17 - 2, int(g.integers(0, R))):      # all-empty row blocks (also across 2^17)
+            if 0 <= a < R and R > 8 and g.random() < .4:
+                lens[a:a + 3] = 0
+        L = lens.ravel()
+        off = np.concatenate([[0], np.cumsum(L)]).astype(np.int64)
+        vals = np.repeat(np.arange(R * C, dtype=np.int64) * 8, L) + (np.arange(off[-1]) - np.repeat(off[:-1], L))
+        m = MNT(R, C, torch.from_numpy(vals.copy()).to(dt), torch.from_numpy(off.copy()))
+        return m, {'lens': lens}
+    widths = g.integers(0, 4, size=C)
+    off = np.concatenate([[0], np.cumsum(widths)]).astype(np.int64)
+    colp = np.repeat(np.arange(C, dtype=np.int64), widths)
+    kp = np.arange(off[-1]) - np.repeat(off[:-1], widths)
+    vals = (np.arange(R, dtype=np.int64)[:, None] * C + colp[None, :]) * 8 + kp[None, :]
+    m = MET(R, C, torch.from_numpy(vals.copy()).to(dt).reshape(R, int(off[-1])), torch.from_numpy(off.copy()))
+    return m, {'widths': widths}
+
+
+def tall_expected(t, desc, ri, ci):
+    """(values, offset) the selection of original rows `ri` x original columns `ci` must store, by list semantics"""
+    C = t['C']
+    if t['kind'] == 'mnt':
+        cid = (ri[:, None] * C + ci[None, :]).ravel()
+        L = desc['lens'].ravel()[cid] if len(cid) else np.zeros(0, dtype=np.int64)
+        off = np.concatenate([[0], np.cumsum(L)]).astype(np.int64)
+        vals = np.repeat(cid * 8, L) + (np.arange(off[-1]) - np.repeat(off[:-1], L))
+        return vals, off
+    w = desc['widths'][ci] if len(ci) else np.zeros(0, dtype=np.int64)
+    off = np.concatenate([[0], np.cumsum(w)]).astype(np.int64)
+    colp = np.repeat(ci, w)
+    kp = np.arange(off[-1]) - np.repeat(off[:-1], w)
+    vals = (ri[:, None] * C + colp[None, :]) * 8 + kp[None, :]
+    return vals.reshape(len(ri), int(off[-1])), off
+
+
+def run_tall(case):
+    """run a tall case on the real code; returns (canonical outcome, findings)"""
+    t, ops = case['tall'], case['ops']
+    m, desc = tall_build(t)
+    src_vals, src_off = m.values.clone(), m.offset.clone()
+    root = m
+    ri, ci = np.arange(t['R'], dtype=np.int64), np.arange(t['C'], dtype=np.int64)
+    outs, findings = [], []
+    g = np.random.default_rng(t['seed'] + 1)
+    for k, op in enumerate(ops):
+        dim = op['dim']
+        try:
+            pos = np_positions(op['ix'], len(ri) if dim == 0 else len(ci))
+        except (IndexError, ValueError):
+            pos = None
+        used = []
+        try:
+            new = real_apply(m, op, None, used)
+        except Exception as e:
+            new = None
+            outs.append('raises')
+            if pos is not None:
+                findings.append((k, f'raises {type(e).__name__} where the list selection is defined', None, None))
+            break
+        if pos is None:
+            findings.append((k, 'returns data where Python raises', 'raises', None))
+            break
+        ri, ci = (ri[pos], ci) if dim == 0 else (ri, ci[pos])
+        ev, eo = tall_expected(t, desc, ri, ci)
+        gv, go = new.values.to(torch.float64 if t['payload'] == 'float64' else torch.long).numpy(), new.offset.numpy()
+        outs.append({'ok': {'R': int(new.num_rows), 'C': int(new.num_cols), 'nvalues': int(new.values.numel())}})
+        if (int(new.num_rows), int(new.num_cols)) != (len(ri), len(ci)) or not sizes_consistent(new) \
+                or go.shape != eo.shape or not np.array_equal(go, eo) or gv.shape != ev.shape:
+            findings.append((k, 'result is not the well-formed container of the selected rows x columns',
+                             {'R': len(ri), 'C': len(ci), 'nvalues': int(ev.size)}, outs[-1]['ok']))
+            break
+        if not np.array_equal(gv, ev.astype(gv.dtype)):
+            bad = np.argwhere(gv != ev.astype(gv.dtype))[0].tolist()
+            findings.append((k, 'selected cells differ from the nested-list selection',
+                             {'first differing stored value': bad, 'required': float(ev[tuple(bad)])},
+                             float(gv[tuple(bad)])))
+            break
+        # single-cell access on a few cells (always including the last row and the rows around 2^17)
+        if len(ri) and len(ci):
+            probe = {0, len(ri) - 1, min(len(ri) - 1, 2 ** 17), min(len(ri) - 1, 2 ** 17 - 1)} | \
+                set(int(x) for x in g.integers(0, len(ri), 4))
+            for i in probe:
+                j = int(g.integers(0, len(ci)))
+                ce, _ = tall_expected(t, desc, ri[i:i + 1], ci[j:j + 1])
+                got = new[i, j].to(torch.float64).numpy()
+                if not np.array_equal(got, np.asarray(ce, dtype=np.float64).ravel()):
+                    findings.append((k, 'single-cell access differs from the nested list', None, [i, j]))
+                    break
+        for o, ix in used:
+            if ix['t'] == 'sym' and isinstance(o, torch.Tensor) and not np.array_equal(o.numpy(), sym_array(ix).astype(o.numpy().dtype)):
+                findings.append((k, "selection modified the caller's index tensor", None, None))
+        m = new
+        if findings:
+            break
+    if not (torch.equal(root.values, src_vals) and torch.equal(root.offset, src_off)):
+        findings.append((len(ops) - 1, 'selection modified its source', None, None))
+    return outs, findings
